@@ -1180,3 +1180,87 @@ def scenarios_tuplelayout(seed, n, op='from_data'):
             continue
         out.append({'id': f'tl{seed}:{i}', 'decl': ge.decl, 'op': op, 'ty': ty, 'val': wire, 'spell': r.randrange(2), 'stream': 'tuplelayout'})
     return out
+
+
+def scenarios_handlers(seed, n):
+    """C18: subsets of the handler sources (field converter, call-level, own class, enclosing class, inherited) x nesting
+    shapes x both directions, with tagging converters (tagint:k multiplies ints by k, tagstr:s appends s)"""
+    g = random.Random(seed)
+    out = []
+    for i in range(n):
+        ge = Gen(g.randrange(1 << 62), max_depth=1, classes=True)
+        r = ge.r
+
+        def handler(kinds, exact=None):
+            ents = []
+            for k in kinds:
+                if k == 'int':
+                    ents.append(['int', 'tagint:%d' % r.choice([2, 3, 5, 7])])
+                elif k == 'str':
+                    ents.append(['str', 'tagstr:%s' % r.choice(['x', 'y'])])
+                else:
+                    ents.append([k, 'tagint:11'])
+            return {'entries': ents, 'exactOnly': (r.random() < 0.5) if exact is None else exact}
+
+        def maybe_custom(p):
+            if r.random() < p:
+                hs = [handler(r.sample(['int', 'str', 'list'], r.randint(1, 2)))]
+                if r.random() < 0.25:
+                    # a sequence of handlers must be function-form (pane accepts ONE mapping or a sequence of callables);
+                    # the first answers NotImplemented for int: the loop must defer to the next
+                    hs = [handler(['str'], exact=False), dict(hs[0], exactOnly=False)]
+                return hs
+            return None
+
+        inner = ge.fresh('I')
+        ifields = [{'name': 'a', 'ty': 'int'}, {'name': 'b', 'ty': {'seq': ['list', 'int']}, 'default': {'factory': 'list'}}]
+        if r.random() < 0.5:
+            ifields.append({'name': 'c', 'ty': 'int', 'default': {'value': {'i': '1'}}, 'spec': {'converter': 'tagint:13'}})
+        if r.random() < 0.4:
+            ifields.append({'name': 's', 'ty': 'str', 'default': {'value': 'q'}})
+        di = {'name': inner, 'fields': ifields, 'opts': {}, 'hook': None}
+        c = maybe_custom(0.5)
+        if c:
+            di['opts']['custom'] = c
+        ge.decl['classes'].append(di)
+        ge.class_info[inner] = di
+        outer = ge.fresh('O')
+        ofields = [{'name': 'inner', 'ty': {'cls': [inner, []]}}, {'name': 'n', 'ty': 'int', 'default': {'value': {'i': '4'}}},
+                   {'name': 'u', 'ty': {'union': ['int', 'str']}, 'default': {'value': 'z'}},
+                   {'name': 'm', 'ty': {'map': ['dict', ['str', 'int']]}, 'default': {'value': {'d': []}}}]
+        do = {'name': outer, 'fields': ofields, 'opts': {}, 'hook': None}
+        c = maybe_custom(0.5)
+        if c:
+            do['opts']['custom'] = c
+        ge.decl['classes'].append(do)
+        ge.class_info[outer] = do
+        target = outer
+        if r.random() < 0.35:
+            sub = ge.fresh('S')
+            ds = {'name': sub, 'fields': [{'name': 'extra', 'ty': 'int', 'default': {'value': {'i': '9'}}}], 'opts': {}, 'hook': None,
+                  'base': {'cls': [outer, []]}}
+            c = maybe_custom(0.3)
+            if c:
+                ds['opts']['custom'] = c
+            ge.decl['classes'].append(ds)
+            ge.class_info[sub] = {'name': sub, 'fields': ofields + ds['fields'], 'opts': ds['opts'], 'hook': None}
+            target = sub
+        shape = r.choice(['cls', 'list', 'union', 'dictval', 'int', 'listint', 'inner'])
+        tcls = {'cls': [target, []]}
+        ty = {'cls': tcls, 'list': {'seq': ['list', tcls]}, 'union': {'union': [tcls, 'int']}, 'dictval': {'map': ['dict', ['str', tcls]]},
+              'int': 'int', 'listint': {'seq': ['list', 'int']}, 'inner': {'cls': [inner, []]}}[shape]
+        call = maybe_custom(0.5)
+        try:
+            v = ge.valid(ty)
+            if r.random() < 0.15:
+                v = ge.mutate(v)
+            wire = ENC.enc(v)
+            json.dumps(wire)
+        except Exception:
+            continue
+        sc = {'id': f'h{seed}:{i}', 'decl': ge.decl, 'op': r.choice(['from_data', 'from_data', 'roundtrip']), 'ty': ty, 'val': wire,
+              'spell': 0, 'stream': 'handlers'}
+        if call:
+            sc['handlers'] = {'globals': call}
+        out.append(sc)
+    return out
